@@ -463,3 +463,109 @@ Proof.
     + cbn [shape2 fst] in Hlen. rewrite E in Hlen |- *.
       destruct variances; [cbn [length] in Hlen; lia|discriminate].
 Qed.
+
+(* ---------- dbal_fast_gauss_scoring_vectorized: the shape checks and the index-to-triple run ---------- *)
+Lemma src_kernel_checks_spec (pred : arr3) (vars : arr3n) (D : arr2) :
+  src_kernel_checks pred vars D
+  = let '(np, T, E) := shape3 pred in
+    let '(np', T', E') := shape3 vars in
+    if negb (Nat.eqb np np' && Nat.eqb T T' && Nat.eqb E E') then Err 20%Z
+    else if negb (Nat.eqb (fst (shape2 D)) (snd (shape2 D))) then Err 21%Z
+    else if negb (Nat.eqb (fst (shape2 D)) T) then Err 22%Z
+    else Ok tt.
+Proof.
+  unfold src_kernel_checks, shape3_ne, dim0, dim1, dim3_1.
+  destruct (shape3 pred) as [[np T] E]. destruct (shape3 vars) as [[np' T'] E']. cbn [fst snd].
+  rewrite !zeqb_of_nat, (Nat.eqb_sym np' np), (Nat.eqb_sym T' T), (Nat.eqb_sym E' E),
+    (Nat.eqb_sym (snd (shape2 D)) (fst (shape2 D))).
+  reflexivity.
+Qed.
+
+Lemma comb3_small T : (T < 3)%nat -> comb3 (Z.of_nat T) = 0%Z.
+Proof. intros H. unfold comb3. destruct (Z.ltb_spec (Z.of_nat T) 3); [reflexivity|lia]. Qed.
+
+Lemma comb3_pos T : (3 <= T)%nat -> (1 <= comb3 (Z.of_nat T))%Z.
+Proof.
+  intros H. unfold comb3. destruct (Z.ltb_spec (Z.of_nat T) 3); [lia|].
+  apply Z.div_le_lower_bound; [lia|]. nia.
+Qed.
+
+Lemma res_map_all_eta {A B} (f : A -> result B) l : res_map_all (fun x => dor r <- f x; Ok r) l = res_map_all f l.
+Proof. induction l as [|a l IH]; cbn [res_map_all]; [reflexivity|]. now rewrite res_bind_ok_id, IH. Qed.
+
+Lemma res_map_all_length {A B} (f : A -> result B) l : forall l', res_map_all f l = Ok l' -> length l' = length l.
+Proof.
+  induction l as [|a l IH]; intros l' H; cbn [res_map_all] in H; [now inversion H|].
+  destruct (f a); cbn [res_bind] in H; [|discriminate].
+  destruct (res_map_all f l) as [bs|]; cbn [res_bind] in H; [|discriminate].
+  inversion H. cbn [length]. now rewrite (IH bs eq_refl).
+Qed.
+
+(* the run: comb(n_thetas, 3), the raise, min with the budget, rng.choice, unranking per index, the three columns *)
+Theorem src_kernel_triples_spec (pred : arr3) (mc : Z) (d : list Z) (rest : list (list Z)) np T E :
+  shape3 pred = (np, T, E) ->
+  (1 <= mc)%Z ->
+  choice_ok (comb3 (Z.of_nat T)) (Z.min (comb3 (Z.of_nat T)) mc) d = true ->
+  src_kernel_triples pred mc (d :: rest)
+  = if (T <? 3)%nat then Err 23%Z
+    else dor zs <- res_map_all (fun i => unrank3 i (Z.of_nat T)) d;
+         dor t3 <- unzip3 zs;
+         Ok (t3, rest).
+Proof.
+  intros Es Hmc Hok. unfold src_kernel_triples, shape3z. rewrite Es.
+  destruct (Nat.ltb_spec T 3) as [Hlt|Hge].
+  - now rewrite (comb3_small T Hlt).
+  - pose proof (comb3_pos T Hge) as Hc. set (c := comb3 (Z.of_nat T)) in *.
+    destruct (Z.eqb_spec c 0) as [|_]; [lia|]. cbn [negb].
+    unfold rng_choice.
+    destruct (Z.ltb_spec (Z.min c mc) 0) as [|_]; [lia|].
+    destruct (Z.ltb_spec c (Z.min c mc)) as [|_]; [lia|].
+    rewrite Hok. cbn [res_bind]. rewrite res_map_all_eta.
+    destruct (res_map_all _ d) as [zs|t]; cbn [res_bind]; [|reflexivity].
+    destruct (unzip3 zs) as [[[i1 i2] i3]|t]; reflexivity.
+Qed.
+
+Definition nat3 (z : Z * Z * Z) : triple := (Z.to_nat (fst (fst z)), Z.to_nat (snd (fst z)), Z.to_nat (snd z)).
+
+Lemma triples_via_unrank3 T d :
+  triples_of_draw T d = dor zs <- res_map_all (fun i => unrank3 i (Z.of_nat T)) d; Ok (map nat3 zs).
+Proof.
+  unfold triples_of_draw. induction d as [|ix d IH]; cbn [res_map_all]; [reflexivity|].
+  rewrite IH. unfold triple_of_index. change (unrank3 ix (Z.of_nat T)) with (dor l <- unrank ix (Z.of_nat T) 3; match l with [a; b; c] => Ok (a, b, c) | _ => Err 9%Z end).
+  destruct (unrank ix (Z.of_nat T) 3) as [l|t]; cbn [res_bind]; [|reflexivity].
+  destruct l as [|a [|b [|c [|x l]]]]; cbn [res_bind]; try reflexivity.
+  clear IH. destruct (res_map_all (fun i : Z => unrank3 i (Z.of_nat T)) d); reflexivity.
+Qed.
+
+Lemma nat_triples_unzip3 zs t3 : unzip3 zs = Ok t3 -> nat_triples t3 = map nat3 zs.
+Proof.
+  unfold unzip3. destruct zs as [|z0 zs0] eqn:E; [discriminate|]. rewrite <- E. clear. intros H. inversion H; subst. clear H.
+  unfold nat_triples. cbn [fst snd].
+  induction zs as [|[[a b] c] zs IH]; cbn [map zip3_nat fst snd]; [reflexivity|]. now rewrite IH.
+Qed.
+
+(* the model's checked kernel IS: the translated shape checks, the translated index-to-triple run on the recorded
+   rng.choice answer d, and the (untranslated) tensor expressions [kernel] on the triples that run produces *)
+Theorem kernel_checked_is_source orc (pred : arr3) (vars : arr3n) (D : arr2) df (mc : Z) (d : list Z) rest :
+  (1 <= mc)%Z ->
+  (let T := Z.of_nat (snd (fst (shape3 pred))) in choice_ok (comb3 T) (Z.min (comb3 T) mc) d = true) ->
+  kernel_checked orc pred vars D df d
+  = dor _ <- src_kernel_checks pred vars D;
+    dor r <- src_kernel_triples pred mc (d :: rest);
+    Ok (kernel orc pred vars D df (nat_triples (fst r))).
+Proof.
+  intros Hmc Hok. rewrite src_kernel_checks_spec. unfold kernel_checked.
+  destruct (shape3 pred) as [[np T] E] eqn:Es. destruct (shape3 vars) as [[np' T'] E']. cbn [fst snd] in Hok.
+  destruct (negb (_ && _ && _)); [reflexivity|].
+  destruct (negb (Nat.eqb (fst (shape2 D)) (snd (shape2 D)))); [reflexivity|].
+  destruct (negb (Nat.eqb (fst (shape2 D)) T)); [reflexivity|]. cbn [res_bind].
+  rewrite (src_kernel_triples_spec pred mc d rest np T E Es Hmc Hok).
+  destruct (Nat.ltb_spec T 3) as [Hlt|Hge]; [reflexivity|].
+  rewrite triples_via_unrank3.
+  destruct (res_map_all _ d) as [zs|t] eqn:Ez; cbn [res_bind]; [|reflexivity].
+  destruct (unzip3 zs) as [t3|t] eqn:Eu; cbn [res_bind fst].
+  - now rewrite (nat_triples_unzip3 zs t3 Eu).
+  - exfalso. apply res_map_all_length in Ez. pose proof (comb3_pos T Hge) as Hc.
+    unfold choice_ok in Hok. apply andb_prop in Hok as [Hok _]. apply andb_prop in Hok as [Hlen _].
+    apply Z.eqb_eq in Hlen. destruct zs; [cbn [length] in Ez; lia|discriminate].
+Qed.
